@@ -20,7 +20,8 @@ META = dict(
          "violation. Holds for the executions produced only.",
     note="Trusts cryptography's ECDSA/Ed25519 verification and Python's pow(). Mutations that decode to the "
          "genuine content are skipped as trivial; cert-flavoured RSA algorithm aliases are exercised for "
-         "exceptions but their answer is not judged.",
+         "exceptions but their answer is not judged. util.inflate_long is wrapped: an mpint whose declared "
+         "length exceeds 32 KiB (quadratic, minutes per call) is skipped and counted.",
     rule="case = (key kind, signing origin, algorithm, verification scenario or mutation class, verifier origin); "
          "distinct = hash of that tuple plus the mutated bytes; trivial = mutation decoding to the genuine content",
     assumptions=["cryptography's verifiers are correct for ECDSA and Ed25519",
@@ -58,6 +59,9 @@ def verify(ctx, obj, origin, fam, data, sigbytes, scenario):
     ctx.count("verify_calls")
     try:
         r = obj.verify_ssh_sig(data, Message(sigbytes))
+    except ko.SkipSlow:
+        ctx.count("skipped_mpint_over_32KiB")
+        return None
     except Exception as e:
         ctx.count("verify_exceptions")
         ctx.violation(ko.exc_sig(e), "verify_ssh_sig raised %s instead of answering True/False" % type(e).__name__,
@@ -360,6 +364,7 @@ def exercise(ctx, fam, n_sigs, n_mut):
 def run(ctx):
     if ctx.guard(ko.selfcheck) is None:
         return
+    ko.install_inflate_guard()
     fams = build_families(ctx)
     ctx.all_families = fams
     ctx.note("families", [f.label + " (" + ",".join(o for o, _ in f.objs) + ")" for f in fams][:40])
